@@ -7,7 +7,7 @@
 From Coq Require Import ZArith Bool List Arith Lia QArith Qcanon.
 From QV.Core Require Import OF QcOF.
 From QV.Model Require Import C03_Index C03_VarObj C03_SetQOps.
-From QV.Proofs Require Import C03_Index C03_VarObj C03_SetQOps.
+From QV.Proofs Require Import C03_Index C03_VarObj C03_SetQOps C03_Derivative C03_Extra.
 Import ListNotations.
 
 (* ------------------------------------------------------------------ round trips *)
@@ -56,6 +56,21 @@ Theorem C03_stacked_to_var_consistent : forall (F : OF) (sdf : nat -> F) (o : qo
   qop_wf F o -> qop_stacked_to_var F sdf o (qop_stacked F o) = Some (qop_to_var F o).
 Proof. exact qop_stacked_to_var_consistent. Qed.
 Print Assumptions C03_stacked_to_var_consistent.
+
+(* var -> stacked -> var = var for EVERY variable vector of the right length (static conversions, all types, both flags) *)
+Theorem C03_var_stacked_var : forall (F : OF) (sdf : nat -> F) (o : qop F) (var : list F),
+  qop_wf F o -> length var = length (qop_to_var F o) ->
+  exists st, qop_var_to_stacked F sdf o var = Some st /\ qop_stacked_to_var F sdf o st = Some var.
+Proof. exact qop_var_stacked_var. Qed.
+Print Assumptions C03_var_stacked_var.
+
+(* stacked -> var -> stacked = the stacked vector of the object with its implied component overwritten *)
+Theorem C03_stacked_var_stacked : forall (F : OF) (sdf : nat -> F) (o : qop F),
+  qop_wf F o ->
+  exists v, qop_stacked_to_var F sdf o (qop_stacked F o) = Some v /\
+            qop_var_to_stacked F sdf o v = Some (qop_stacked F (qop_reimplied F sdf o)).
+Proof. exact qop_stacked_var_stacked. Qed.
+Print Assumptions C03_stacked_var_stacked.
 
 (* ------------------------------------------------------------------ number of variables *)
 (* length of the variable vector = the num_variables formula of StandardQst / Qpt / Povmt / Qmpt *)
@@ -134,6 +149,43 @@ Theorem C03_gradient_one_hot : forall (F : OF) (o : qop F) (i : Z),
 Proof. exact qop_gradient_one_hot. Qed.
 Print Assumptions C03_gradient_one_hot.
 
+(* State and Gate (both flags), Povm and MProcess without the constraint: the one-hot IS the exact derivative of
+   var |-> stacked  (var' = var + t e_i  moves exactly the designated entry, by t) *)
+Theorem C03_gradient_is_exact_derivative : forall (F : OF) (sdf : nat -> F) (o : qop F) (var var' : list F) (i : nat) (t : F),
+  qop_wf F o -> grad_exact F o -> length var = length (qop_to_var F o) -> (i < length var)%nat -> bumped F var var' i t ->
+  exists st st', qop_var_to_stacked F sdf o var = Some st /\ qop_var_to_stacked F sdf o var' = Some st' /\
+    forall pos, nth pos st' (c0 F) =
+                cadd F (nth pos st (c0 F)) (if Nat.eqb pos (Z.to_nat (qop_flat_index F o (Z.of_nat i))) then t else c0 F).
+Proof. exact qop_true_derivative_exact. Qed.
+Print Assumptions C03_gradient_is_exact_derivative.
+
+(* Povm under the constraint (q = m-1 free elements): the exact derivative is the one-hot at entry i MINUS a one-hot in the
+   implied last element, at the same coefficient position  i mod d^2 *)
+Theorem C03_povm_true_derivative : forall (F : OF) (d : nat) (sd : F) (q : nat) (var var' : list F) (i : nat) (t : F),
+  (1 <= d)%nat -> length var = (q * (d * d))%nat -> (i < q * (d * d))%nat -> bumped F var var' i t ->
+  exists vecs vecs', povm_var_to_vecs F d sd true var = Some vecs /\ povm_var_to_vecs F d sd true var' = Some vecs' /\
+    forall pos, (pos < (q + 1) * (d * d))%nat ->
+      nth pos (povm_stacked F vecs') (c0 F) =
+      csub F (cadd F (nth pos (povm_stacked F vecs) (c0 F)) (if Nat.eqb pos i then t else c0 F))
+             (if Nat.eqb pos (q * (d * d) + i mod (d * d)) then t else c0 F).
+Proof. exact povm_true_derivative. Qed.
+Print Assumptions C03_povm_true_derivative.
+
+(* MProcess under the constraint: one-hot at the designated entry (shifted by d^2 inside the last HS) MINUS, when variable i
+   sits in the FIRST ROW of one of the first m-1 HS matrices, a one-hot in the implied first row of the last HS *)
+Theorem C03_mproc_true_derivative : forall (F : OF) (d m : nat) (var var' : list F) (i : nat) (t : F),
+  (1 <= d)%nat -> (1 <= m)%nat ->
+  length var = ((m - 1) * (d * d * (d * d)) + (d * d - 1) * (d * d))%nat -> (i < length var)%nat ->
+  bumped F var var' i t ->
+  forall pos, (pos < m * (d * d * (d * d)))%nat ->
+    nth pos (mp_var_to_stacked F d true var') (c0 F) =
+    csub F (cadd F (nth pos (mp_var_to_stacked F d true var) (c0 F))
+              (if Nat.eqb pos (if Nat.ltb i ((m - 1) * (d * d * (d * d))) then i else i + d * d) then t else c0 F))
+           (if Nat.ltb i ((m - 1) * (d * d * (d * d))) && Nat.ltb (i mod (d * d * (d * d))) (d * d)
+               && Nat.eqb pos ((m - 1) * (d * d * (d * d)) + i mod (d * d * (d * d))) then t else c0 F).
+Proof. exact mp_true_derivative. Qed.
+Print Assumptions C03_mproc_true_derivative.
+
 (* ------------------------------------------------------------------ SetQOperations: any mix, any number of operations *)
 (* local -> total -> local, for an arbitrary family of segment sizes *)
 Theorem C03_set_local_total_local : forall (s : sizes) (k : kind) (i : nat) (j : Z),
@@ -192,6 +244,31 @@ Theorem C03_set_wrong_length_error : forall (F : OF) (sdf : nat -> F) (s : setq 
 Proof. exact set_from_var_total_error. Qed.
 Print Assumptions C03_set_wrong_length_error.
 
+(* size_var_total = len(var_total), and every operation contributes exactly its num_variables *)
+Theorem C03_set_size_is_length : forall (F : OF) (s : setq F),
+  Z.of_nat (length (var_total F s)) = size_total (sizes_of F s).
+Proof. exact var_total_length. Qed.
+Print Assumptions C03_set_size_is_length.
+Theorem C03_set_sizes_are_num_variables : forall (F : OF) (s : setq F) (k : kind) (i : nat) (dq : qop F),
+  setq_wf F s -> (i < length (ops_of F s k))%nat ->
+  nth i (sizes_of F s k) 0 = qop_num_variables F (nth i (ops_of F s k) dq).
+Proof. exact sizes_are_num_variables. Qed.
+Print Assumptions C03_set_sizes_are_num_variables.
+
+(* across a whole set: the total index of (kind, operation i, local variable j) is where var_total holds the OBJECT ENTRY that
+   the operation's own index map designates for j *)
+Theorem C03_set_total_points_at_entry : forall (F : OF) (s : setq F) (k : kind) (i j : nat) (dq : qop F),
+  setq_wf F s -> (i < length (ops_of F s k))%nat ->
+  0 <= Z.of_nat j < qop_num_variables F (nth i (ops_of F s k) dq) ->
+  exists t, total_from_local (sizes_of F s) k (Z.of_nat i) (Z.of_nat j) = Some t /\
+            0 <= t < size_total (sizes_of F s) /\
+            local_from_total (sizes_of F s) t = LOk k (Z.of_nat i) (Z.of_nat j) /\
+            nth (Z.to_nat t) (var_total F s) (c0 F) =
+            nth (Z.to_nat (qop_flat_index F (nth i (ops_of F s k) dq) (Z.of_nat j)))
+                (qop_stacked F (nth i (ops_of F s k) dq)) (c0 F).
+Proof. exact set_total_points_at_entry. Qed.
+Print Assumptions C03_set_total_points_at_entry.
+
 (* ------------------------------------------------------------------ non-vacuity: concrete instances over Qc *)
 (* index maps: 1-qubit instrument with 3 outcomes under the constraint has 3*16-4 = 44 variables; variable 40 lives in
    the last HS matrix, row 3 (shifted by the implied row), column 0, i.e. at stacked position 44 = 40 + 4 *)
@@ -229,3 +306,14 @@ Example C03_example_set :
   total_from_local (sizes_of Qc_OF ex_set) KPovm 0 2 = Some 6.
 Proof. split; [|split; [apply sizes_of_nonneg|repeat split; reflexivity]].
   intros k; destruct k; cbn; repeat constructor. Qed.
+
+(* the hypotheses of the derivative theorems are satisfiable: a 1-qubit 3-outcome POVM under the constraint (q = 2, 8 variables),
+   variable 5 moved by 3; and the 12 variables of ex_gate_ok, variable 5 moved by 3 *)
+Definition ex_var : list Qc := [q 1; q 2; q 3; q 4; q 5; q 6; q 7; q 8].
+Definition ex_var' : list Qc := [q 1; q 2; q 3; q 4; q 5; q 9; q 7; q 8].
+Example C03_example_bumped :
+  (1 <= 2)%nat /\ length ex_var = (2 * (2 * 2))%nat /\ (5 < 2 * (2 * 2))%nat /\ bumped Qc_OF ex_var ex_var' 5 (q 3) /\
+  grad_exact Qc_OF ex_gate_ok /\ ~ grad_exact Qc_OF (QPovm Qc_OF 2 true []).
+Proof. split; [lia|]. split; [reflexivity|]. split; [lia|]. split; [|split; [exact I|discriminate]].
+  split; [reflexivity|]. intros k. do 8 (destruct k as [|k]; [apply Qc_is_canon; reflexivity|]).
+  destruct k; apply Qc_is_canon; reflexivity. Qed.
